@@ -13,6 +13,7 @@ CHECKS = {
               'references) under every prompt mode, and real 2021-2023 returns re-solved as full file / deleted keys / partial or refusing prompt / '
               'gate inputs flipped, are checked for: verdict True iff no demanded line ends not-implemented, hits a missing input or is blocked; '
               'diagnostic getters equal the sets the oracle derives; aborts only where the model aborts; the CLI exit text matches. Random search: '
+              'Requests that make the direct solve abort (an unsupported form next to supported ones) must abort on the command line too. '
               'Requests of several forms of which exactly one cannot be completed are run through the command line in every position. '
               'strong on the solver core, as wide on shipped forms as the scenario generator reaches (class distribution in evidence).'),
         note='Trusted: hx/progs.py model, hx/closure.py, the scenario generator. Aborts with NotImplementedError/InvalidInput/bad-reference errors are allowed outcomes.',
@@ -27,6 +28,7 @@ CHECKS = {
               'end-to-end: every parsed line and every carry of every solved generated return is recomputed from the same solution. '
               'Sentences that total payer-statement boxes (template wording or cited transcription) are evaluated on the input file, and half of the '
               'returns are completed so that every such box is filled on every copy (answer-on-demand never fills a box nobody asks for); '
+              'Lines that were computable from exactly the lines their instruction names at the pinned tree (data/closed_lines.json) must stay so. '
               '"Figure the tax on line N" uses the harness\' own rate-schedule reference. '
               'Unparsed sentences and non-closed lines are listed in evidence, never guessed.'),
         note='Trusted: hx/instr.py grammar, hx/pdf.py text extraction, data/instructions_transcribed.json (sources cited). Lines whose text is "see instructions" or an input echo are out of reach.',
@@ -37,7 +39,8 @@ CHECKS = {
         text=('Every solve explored (generated programs with diamonds/late operands and real returns, complete and partial, under random, reversed '
               'and natural attempt orders) is re-evaluated line by line: stored value == definition(final inputs, final values), same type; equals '
               'the reference model for programs; solution text re-reads to the stored value; table-edge returns, and every stored line evaluated again '
-              'in descending and shuffled order after an unrelated return was solved in the same process (no hidden state).'),
+              'in descending and shuffled order after an unrelated return was solved in the same process, and on freshly constructed form objects '
+              '(no hidden state in module, closure or form object).'),
         note='Trusted: definitions are deterministic; hx/closure.py; schedule substitution via habutax.solver.sort_keys/DependencyTracker.',
         design='3/C03'),
     'C04': dict(
@@ -45,6 +48,7 @@ CHECKS = {
         technique='set-equality oracle between Solver state (solution keys, Solver.forms) and the independently computed demand closure, over generated programs and real returns with several requested form sets',
         text=('For solved and unsolved real returns (requested: 1040, 1040+NC, NC alone, single schedules) and generated programs with optional '
               'lines/forms/numbered copies, the keys of the solution and the participating forms must equal the demand closure (both directions), '
+              'a successful solution holds every required line of every participating form; '
               'inputs typed at the real command-line prompt (always one that dozens of lines wait for) must give the same solution file; '
               'input-only loaded forms must not appear, every solution section is a participating form.'),
         note='Trusted: hx/closure.py, hx/progs.py model.',
